@@ -1878,17 +1878,27 @@ func (p *Prog) closeBeforeReplaceFor(owner *types.Named, handleField, segField *
 		}
 		ob := Ob{Rule: "R20", Inst: "e:reports-only-applied:" + funcLabel(fn), Props: []string{"C12", "C08"}, Pos: p.posStr(fn.Pos()), Func: funcLabel(fn), Nontrivial: true}
 		var bad []string
+		// every path to a success return passes an apply: reachability with the apply blocks removed
+		barrier := map[*ssa.BasicBlock]bool{}
+		for _, c := range applies {
+			barrier[c.Block()] = true
+		}
+		free := map[*ssa.BasicBlock]bool{}
+		work := []*ssa.BasicBlock{fn.Blocks[0]}
+		for len(work) > 0 {
+			x := work[len(work)-1]
+			work = work[:len(work)-1]
+			if free[x] || barrier[x] {
+				continue
+			}
+			free[x] = true
+			work = append(work, x.Succs...)
+		}
 		for _, rt := range returnsOf(fn) {
 			if ea.isFailureReturn(fn, rt) {
 				continue
 			}
-			dom := false
-			for _, c := range applies {
-				if instrDominates(c, rt) {
-					dom = true
-				}
-			}
-			if !dom {
+			if free[rt.Block()] {
 				bad = append(bad, p.at(rt)+": success is returned although the rewrite was not put in place")
 			}
 		}
